@@ -199,6 +199,35 @@ def worker(spec):
                               frames=[f.funcname for f in s.frames], error=repr(s.error), interp=interp)
             done.set()
             th.join(10)
+            # the *main* greenlet of another thread (running there, no child greenlet active)
+            hold3 = {}
+            ev3 = threading.Event()
+            fin3 = threading.Event()
+
+            def thread3():
+                hold3["main"] = greenlet.getcurrent()
+                ev3.set()
+                fin3.wait()
+
+            th3 = threading.Thread(target=thread3)
+            th3.start()
+            ev3.wait(10)
+
+            def ask_from_child():
+                hold3["from_child"] = extract(hold3["main"])
+
+            s = extract(hold3["main"])
+            greenlet.greenlet(ask_from_child).switch()
+            res.evaluations += 2
+            res.count("lifecycle_cases", 2)
+            res.nontrivial("other-thread-main", rep)
+            for who, st_ in (("main greenlet", s), ("child greenlet", hold3["from_child"])):
+                if st_.frames or not isinstance(st_.error, RuntimeError):
+                    res.violation(kind="main greenlet of another thread: expected an error and no frames",
+                                  asked_from=who, frames=[f.funcname for f in st_.frames][:6], error=repr(st_.error),
+                                  interp=interp)
+            fin3.set()
+            th3.join(10)
             # suspended greenlet of another (finished or living) thread: must not yield some other stack
             hold2 = {}
             ev2 = threading.Event()
